@@ -11,8 +11,9 @@ see the observation strings themselves (replay diagnosis).
 import hashlib
 import itertools
 import os
+import zlib
 
-from ..framework import Prop, mk, exc_family, ensure_repo_on_path
+from ..framework import Prop, mk, exc_family, ensure_repo_on_path, DriverError
 
 VERBOSE = bool(os.environ.get('C09_VERBOSE'))
 
@@ -81,6 +82,11 @@ def p_hdr(s):
     return (int(v), bytes.fromhex(p), bytes.fromhex(m), int(t), int(b), int(n))
 
 
+def cheap_digest(b):
+    """transport compression of an observation string (CRC-32 ‖ Adler-32; the driver computes the same)"""
+    return '%08x%08x' % (zlib.crc32(b) & 0xffffffff, zlib.adler32(b) & 0xffffffff)
+
+
 def p_target(s):
     parts = s.split('.')
     return int(parts[0]), [int(x) for x in parts[1:]]
@@ -106,6 +112,7 @@ class World:
         C = self.C
         self.names = []
         self.root_kinds = {}    # name -> class number of a named sequence (8 vin-like, 9 vout-like)
+        self.harness_err = None  # an AttributeError/ImportError/NameError raised in a harness frame: case unobservable
         self.mutable = (C.CMutableOutPoint, C.CMutableTxIn, C.CMutableTxOut, C.CMutableTransaction)
 
     # -- object graph navigation --
@@ -213,6 +220,17 @@ class World:
         C = self.C
         return C.CTxWitness(tuple(C.CTxInWitness(self.SC.CScriptWitness(tuple(st))) for st in w))
 
+    def err(self, e):
+        """the property names no exception class: what is compared is THAT the real code raised (audit 3)"""
+        # The harness uses only public names of the statement's classes.  An AttributeError in a harness frame is
+        # here an ordinary outcome (`tx.vin.append` on a tuple, `setattr` of an unknown name on a mutable object),
+        # so only ImportError / NameError count as "the harness could not reach something".
+        if isinstance(e, (ImportError, NameError)):
+            fam = exc_family(e)
+            if fam.startswith('harness:'):
+                self.harness_err = fam
+        return 'err'
+
     # -- one op; returns the out string; appends exactly one name --
     def step(self, op):
         new = None
@@ -220,10 +238,8 @@ class World:
             out, new = self.exec(op)
         except BadRef:
             out = 'badref'
-        except RecursionError:
-            out = 'err:py:RecursionError'
         except Exception as e:  # noqa: BLE001 - every escaping exception is an observation
-            out = 'err:' + exc_family(e)
+            out = self.err(e)
         if new is None:
             self.root_kinds.pop(len(self.names), None)
         self.names.append(new)
@@ -278,7 +294,7 @@ class World:
             o = self.resolve(p_target(w[1]))
             if self.is_seq(o) or type(o) in self.mutable:
                 return 'na', None
-            delattr(o, self.slots(o)[0])
+            delattr(o, self.attrs(o)[0])
             return 'done', None
         if k in ('setvin', 'setvout', 'addin', 'repin', 'rmin', 'addout', 'repout', 'rmout', 'setwit'):
             tx = self.root_tx(int(w[1]))
@@ -420,6 +436,20 @@ class World:
             if self.kind(pr) != 0:
                 return 'na', None
             return 'created', C.CMutableTxIn(pr, SC.CScript(bytes.fromhex(w[2])), int(w[3]))
+        if k in ('gethdr', 'newblkfrom'):
+            o = self.resolve(p_target(w[1]))
+            if self.is_seq(o) or not isinstance(o, C.CBlockHeader):
+                return 'na', None
+            if k == 'gethdr':
+                if isinstance(o, C.CBlock):
+                    return 'created', o.get_header()
+                return 'created', C.CBlockHeader(o.nVersion, o.hashPrevBlock, o.hashMerkleRoot, o.nTime, o.nBits,
+                                                 o.nNonce)
+            txs = [self.root_tx(int(x)) for x in (w[2].split(',') if w[2] else [])]
+            if any(t is None for t in txs):
+                raise BadRef()
+            return 'created', C.CBlock(o.nVersion, o.hashPrevBlock, o.hashMerkleRoot, o.nTime, o.nBits, o.nNonce,
+                                       vtx=txs)
         if k == 'newcin':       # D23: the immutable class, given a caller's (possibly mutable) outpoint object
             sc, q = SC.CScript(bytes.fromhex(w[2])), int(w[3])
             if w[1] == '-':
@@ -433,21 +463,29 @@ class World:
             if kk != 4:
                 return 'na', None
             item = C.CTxInWitness(SC.CScriptWitness(tuple(p_wit(w[-1])[0])))
-            if k == 'wlset':
-                o.vtxinwit[int(w[2])] = item
-            else:
-                o.vtxinwit.append(item)
-            return 'done', None
+            # the property requires the object to be unchanged afterwards (observed after the step), not a particular
+            # way of refusing: an exception, or an edit of a copy handed out by an accessor
+            try:
+                if k == 'wlset':
+                    o.vtxinwit[int(w[2])] = item
+                else:
+                    o.vtxinwit.append(item)
+            except Exception as e:  # noqa: BLE001
+                self.err(e)
+            return 'tried', None
         if k in ('stset', 'stapp'):     # D23: in-place edits of the stack inside a CTxInWitness's CScriptWitness
             o, kk = self.resolve_k(p_target(w[1]))
             if kk != 3:
                 return 'na', None
             b = bytes.fromhex(w[-1])
-            if k == 'stset':
-                o.scriptWitness.stack[int(w[2])] = b
-            else:
-                o.scriptWitness.stack.append(b)
-            return 'done', None
+            try:
+                if k == 'stset':
+                    o.scriptWitness.stack[int(w[2])] = b
+                else:
+                    o.scriptWitness.stack.append(b)
+            except Exception as e:  # noqa: BLE001
+                self.err(e)
+            return 'tried', None
         raise ValueError('unknown op ' + op)
 
     def verify(self, tx, in_idx, calls):
@@ -477,33 +515,45 @@ class World:
                 pass
 
     # -- observations --
-    @staticmethod
-    def res(f):
+    def res(self, f):
         try:
             return f()
-        except RecursionError:
-            return 'err:py:RecursionError'
         except Exception as e:  # noqa: BLE001
-            return 'err:' + exc_family(e)
+            return self.err(e)
 
     def eq(self, a, b):
         try:
             return 'B:1' if a == b else 'B:0'
         except Exception as e:  # noqa: BLE001
-            return 'B:err:' + exc_family(e)
+            return 'B:' + self.err(e)
 
-    def slots(self, o):
-        out = []
-        for cls in reversed(type(o).__mro__):
-            for s in getattr(cls, '__slots__', ()):
-                if not s.startswith('_') and s not in out:
-                    out.append(s)
-        return out
+    def attrs(self, o):
+        """the public attributes of the property's classes (by name: how instances store them is not observed)"""
+        C = self.C
+        if isinstance(o, C.CBlock):
+            return ['nVersion', 'hashPrevBlock', 'hashMerkleRoot', 'nTime', 'nBits', 'nNonce', 'vtx']
+        if isinstance(o, C.CBlockHeader):
+            return ['nVersion', 'hashPrevBlock', 'hashMerkleRoot', 'nTime', 'nBits', 'nNonce']
+        if isinstance(o, C.CTransaction):
+            return ['nVersion', 'vin', 'vout', 'nLockTime', 'wit']
+        if isinstance(o, C.CTxIn):
+            return ['prevout', 'scriptSig', 'nSequence']
+        if isinstance(o, C.CTxOut):
+            return ['nValue', 'scriptPubKey']
+        if isinstance(o, C.COutPoint):
+            return ['hash', 'n']
+        if isinstance(o, C.CTxInWitness):
+            return ['scriptWitness']
+        if isinstance(o, C.CTxWitness):
+            return ['vtxinwit']
+        return []
 
     def flag(self, o):
+        """M: instance of a mutable class; I: every attempt to assign or delete an attribute of the instance is
+        refused (ANY exception; that the object is unchanged is seen in the observations that follow); X: accepted"""
         if type(o) in self.mutable:
             return 'M'
-        for a in self.slots(o) + ['_cached_GetHash', '_cached__hash__', 'foo']:
+        for a in self.attrs(o) + ['foo']:
             try:
                 cur = getattr(o, a)
             except AttributeError:
@@ -512,10 +562,8 @@ class World:
                 try:
                     f()
                     return 'X'
-                except AttributeError:
-                    pass
                 except Exception:  # noqa: BLE001
-                    return 'X'
+                    pass
         return 'I'
 
     def walk(self, o, path, out):
@@ -524,42 +572,91 @@ class World:
         for i, k in enumerate(self.kids(o)):
             self.walk(k, path + [i], out)
 
-    def observe(self):
-        C = self.C
-        live = []
+    def live(self):
+        out = []
         for u, o in enumerate(self.names):
             if o is not None:
                 targets = []
                 self.walk(o, [], targets)
                 if targets:
-                    live.append((u, o, targets))
+                    out.append((u, o, targets))
+        return out
+
+    def eq_sym(self, a, b):
+        """'1' / '0' / 'e' as the model answers; 'N' if `!=` is not the negation of `==`, 'H' if a == b but the
+        Python hashes differ (neither can be produced by the model)"""
+        try:
+            e = (a == b)
+        except Exception:  # noqa: BLE001
+            try:
+                a != b
+                return 'N'
+            except Exception:  # noqa: BLE001
+                return 'e'
+        try:
+            ne = (a != b)
+        except Exception:  # noqa: BLE001
+            return 'N'
+        if e is not True and e is not False or bool(ne) == bool(e):
+            return 'N'
+        if e and hash(a) != hash(b):
+            return 'H'
+        return '1' if e else '0'
+
+    END_CAP = 40
+
+    def end_matrix(self):
+        """`==` (with `!=` and eq/hash coherence) for all ordered pairs of the first END_CAP live objects"""
+        objs = [o for _, _, targets in self.live() for _, o in targets][:self.END_CAP]
+        return '/'.join(''.join(self.eq_sym(a, b) for b in objs) for a in objs)
+
+    def observe(self, rev=False):
+        """rev: the observers of one object are called in the opposite order (==, hash() first, GetHash later)"""
+        C = self.C
+        live = self.live()
         strs = []
         first = {}
         pyc = []
         for u, root, targets in live:
             for path, o in targets:
-                ser = self.res(lambda: hashlib.sha256(o.serialize()).digest()[:8].hex())
-                gh = self.res(lambda: bytes(o.GetHash())[:8].hex())
-                txid = self.res(lambda: bytes(o.GetTxid())[:8].hex()) if isinstance(o, C.CTransaction) else '-'
-                try:
-                    hv = hash(o)
+                fam = self.family(o)
+
+                def f_eq():
+                    return self.eq(o, first[fam]) if fam in first else '-'
+
+                def f_py():
+                    try:
+                        return hash(o)
+                    except Exception as e:  # noqa: BLE001
+                        return self.err(e)
+
+                def f_txid():
+                    return self.res(lambda: bytes(o.GetTxid())[:8].hex()) if isinstance(o, C.CTransaction) else '-'
+
+                def f_gh():
+                    return self.res(lambda: bytes(o.GetHash())[:8].hex())
+
+                def f_ser():
+                    return self.res(lambda: cheap_digest(o.serialize()))
+                if rev:
+                    eqs, hv, txid, gh, ser = f_eq(), f_py(), f_txid(), f_gh(), f_ser()
+                else:
+                    ser, gh, txid, hv, eqs = f_ser(), f_gh(), f_txid(), f_py(), f_eq()
+                if isinstance(hv, str):
+                    py = hv
+                else:
                     if hv not in pyc:
                         pyc.append(hv)
                     py = str(pyc.index(hv))
-                except Exception as e:  # noqa: BLE001
-                    py = 'err:' + exc_family(e)
-                fam = self.family(o)
-                if fam in first:
-                    eqs = self.eq(o, first[fam])
-                else:
+                if fam not in first:
                     first[fam] = o
-                    eqs = '-'
                 strs.append('%s:%s:%s:%s:%s:%s:%s' % ('.'.join(str(x) for x in [u] + path), self.flag(o), ser, gh,
                                                       txid, py, eqs))
         bits = ''
-        for (i, (u, a, _)) in enumerate(live):
-            for (v, b, _) in live[i + 1:]:
-                e = 'na' if self.is_seq(a) or self.is_seq(b) else self.eq(a, b)
+        live_m = live[-16:]         # the 16 most recent live roots (the end matrix takes the oldest objects)
+        for (i, (u, a, _)) in enumerate(live_m):
+            for (v, b, _) in live_m[i + 1:]:
+                e = 'na' if self.is_seq(a) or self.is_seq(b) else (self.eq(b, a) if rev else self.eq(a, b))
                 bits += {'B:1': '1', 'B:0': '0'}.get(e, 'e')
         return ','.join(strs) + '#' + bits
 
@@ -567,10 +664,14 @@ class World:
 def run_history(mods, hist, verbose=False):
     w = World(mods)
     outs = []
-    for op in hist.split(';'):
+    for k, op in enumerate(hist.split(';')):
         o = w.step(op)
-        obs = w.observe()
-        outs.append(o + '#' + (obs if verbose else hashlib.sha256(obs.encode()).digest()[:8].hex()))
+        obs = w.observe(rev=(k % 2 == 1))
+        outs.append(o + '#' + (obs if verbose else cheap_digest(obs.encode())))
+    obs = w.end_matrix()
+    outs.append('end#' + (obs if verbose else cheap_digest(obs.encode())))
+    if w.harness_err:
+        outs.append('err:' + w.harness_err)      # the framework lists the case as unobservable
     return ';'.join(outs)
 
 
@@ -584,11 +685,14 @@ class Gen:
         self.ints = [p for p in pool if -2 ** 63 <= p <= 2 ** 64]
         self.roots = []      # per step: None | dict(kind, mut, nin, nout)
         self.ops = []
+        self.ood = False     # a value outside the ranges of the wire format (Basic/Tx.lean) was emitted: the history
+        #                      is outside the property's quantifier (kept for the model's explicit error branches)
 
     # values
     def h32(self, allow_bad=False):
         r = self.rng
         if allow_bad and r.random() < 0.08:
+            self.ood = True
             return bytes(r.randrange(256) for _ in range(r.choice((0, 31, 33))))
         if r.random() < 0.6:
             return r.choice(H32)
@@ -602,10 +706,13 @@ class Gen:
         if self.ints and r.random() < 0.2:
             v = r.choice(self.ints)
             if v >= 0 and (allow_bad or v <= 0xffffffff):
+                self.ood |= v > 0xffffffff
                 return v
         if r.random() < 0.3:
             return r.randrange(1 << 32)
-        return r.choice(c)
+        v = r.choice(c)
+        self.ood |= v > 0xffffffff
+        return v
 
     def script(self, parseable=False):
         """parseable=True: a script FindAndDelete can iterate and that holds no OP_CODESEPARATOR (the digest of
@@ -628,13 +735,17 @@ class Gen:
         c = [-1, 0, 1, 5000000000, 21000000 * 100000000, 2 ** 63 - 1, -2 ** 63]
         if allow_bad:
             c += [2 ** 63, -2 ** 63 - 1]
-        return r.choice(c) if r.random() < 0.7 else r.randrange(-2 ** 40, 2 ** 40)
+        v = r.choice(c) if r.random() < 0.7 else r.randrange(-2 ** 40, 2 ** 40)
+        self.ood |= not (-2 ** 63 <= v < 2 ** 63)
+        return v
 
     def version(self, allow_bad=False):
         c = [1, 2, 0, -1, 2 ** 31 - 1, -2 ** 31]
         if allow_bad:
             c += [2 ** 31, -2 ** 31 - 1]
-        return self.rng.choice(c)
+        v = self.rng.choice(c)
+        self.ood |= not (-2 ** 31 <= v < 2 ** 31)
+        return v
 
     def txin(self, allow_bad=False):
         return (self.h32(allow_bad), self.u32(allow_bad), self.script(), self.u32(allow_bad))
@@ -726,6 +837,7 @@ class Gen:
 
     def field_for(self, kind, allow_bad=True):
         r = self.rng
+        allow_bad = allow_bad and r.random() < 0.15     # out-of-range literals make the history out-of-domain
         if kind == 'tx':
             return r.choice((('nVersion', self.version(allow_bad)), ('nLockTime', self.u32(allow_bad))))
         if kind == 'txin':
@@ -816,6 +928,14 @@ class Gen:
             spk = r.choice((b'\xac', b'\x21' + PK + b'\xac', b'\x76\x76\x6d\xac', b'\xad\x51'))
             return self.emit('verify %d %d %s:%d' % (t, idx, hx(spk), ht & 0xff))
         if k < 0.88:       # blocks and headers
+            bh = self.pick(lambda x: x['kind'] in ('blk', 'hdr'))
+            if bh is not None and r.random() < 0.45:
+                # the header of a block / a header with the same fields / a block with the same header and another vtx
+                if r.random() < 0.4:
+                    return self.emit('gethdr %d' % bh, dict(kind='hdr', mut=False))
+                txs = [self.any_tx() for _ in range(r.choice((0, 0, 1, 2)))]
+                return self.emit('newblkfrom %d %s' % (bh, ','.join(str(t) for t in txs if t is not None)),
+                                 dict(kind='blk', mut=False))
             if r.random() < 0.3:
                 return self.emit('newhdr ' + s_hdr((self.version(True), self.h32(r.random() < 0.1), self.h32(), self.u32(),
                                                     self.u32(), self.u32())), dict(kind='hdr', mut=False))
@@ -968,7 +1088,7 @@ class Gen:
         return ';'.join(self.ops)
 
 
-def directed(rng, pool, which):
+def directed(rng, pool, which, cap=100):
     """the aliasing-sensitive sequences, with random values"""
     g = Gen(rng, pool)
     r = rng
@@ -1022,8 +1142,12 @@ def directed(rng, pool, which):
         g.emit('appref %d.0 %d.0.0' % (b, a))
         g.roots[b]['nin'] += 1
         g.emit('repref %d.1 0 %d.1.1' % (a, a))
+        # the SAME input object twice in one list: a copy must hold two copies, sighash must treat them apart
+        g.emit('appref %d.0 %d.0.0' % (a, a))
+        g.roots[a]['nin'] += 1
+        g.emit('sighash %d %s %d %d' % (a, hx(g.script(True)), g.roots[a]['nin'] - 1, r.choice((1, 3, 0x81, 0x83))))
         c = g.emit('newtxfrom %d.0 %d.1 %d %d %s' % (a, b, g.u32(), g.version(), r.choice(('-', '%d.2' % a))),
-                   dict(kind='tx', mut=True, nin=nin, nout=1))
+                   dict(kind='tx', mut=True, nin=nin + 1, nout=1))
         d = g.emit('newin %d.0.0.0 %s %d' % (a, hx(g.script()), g.u32()), dict(kind='txin', mut=True))
         g.emit('appref %d.0 %d' % (c, d))
         g.roots[a]['nin'] += 1
@@ -1061,6 +1185,27 @@ def directed(rng, pool, which):
         g.emit('repin %d 0 %s' % (c, s_txin(g.txin())))
         g.emit('setwitc %d %s %s' % (a, s_wit(g.witness(nin) or [[b'\x01']] * nin), r.choice(('ll', 'lt', 'tl'))))
         g.emit('sighash %d %s 1 %d' % (c, hx(g.script(True)), r.choice((1, 3, 0x81))))
+    elif which == 12:   # blocks, headers and header-only blocks with the SAME header fields: `==`, `!=`, hash() across them
+        a = g.new_tx(True, nin=nin, nout=nout)
+        b = g.new_tx(False, nin=1, nout=1)
+        hv = (g.version(), g.h32(), bytes(32), g.u32(), g.u32(), g.u32())
+        blk = g.emit('newblk %s %d,%d' % (s_hdr(hv), a, b), dict(kind='blk', mut=False))
+        if r.random() < 0.5:
+            g.emit('hash %d' % blk)          # cache filled before / after the twins are compared
+        hd = g.emit('gethdr %d' % blk, dict(kind='hdr', mut=False))
+        b0 = g.emit('newblkfrom %d ' % blk, dict(kind='blk', mut=False))             # vtx = (), explicit merkle root
+        g.emit('newblkfrom %d %d' % (blk, a), dict(kind='blk', mut=False))           # one tx of the two: merkle mismatch
+        g.emit('newblkfrom %d %d,%d' % (hd, a, b), dict(kind='blk', mut=False))      # the same block again
+        g.emit('gethdr %d' % r.choice((hd, b0)), dict(kind='hdr', mut=False))
+        b1 = g.emit('newblk %s %d' % (s_hdr(hv), a), dict(kind='blk', mut=False))    # one tx vs two, own merkle root
+        g.emit('newblkfrom %d %d,%d' % (b1, a, a), dict(kind='blk', mut=False))      # duplicated tx: same merkle root
+        g.emit('newblkfrom %d ' % b1, dict(kind='blk', mut=False))
+        g.emit('newhdr ' + s_hdr(hv), dict(kind='hdr', mut=False))
+        x, y = r.sample((blk, hd, b0, b1), 2)
+        g.emit('eq %d %d' % (x, y))
+        g.emit('pyhash %d' % x)
+        g.emit('eq %d %d' % (y, x))
+        g.emit('snap %d' % blk)
     elif which == 11:   # D23: immutable-class objects built over a caller's list / mutable outpoint: snapshot, cache,
         #                 then in-place edits of the part that was handed in
         tv = g.tx(nin=nin, nout=nout)
@@ -1107,7 +1252,9 @@ def directed(rng, pool, which):
         g.roots[b]['nin'] += 1
         g.emit('hash %d.2' % b)
         g.emit('txid %d' % b)
-    # then: every kind of mutation on every mutable root, interleaved with random ops
+    # then: every kind of mutation on every mutable root (round-robin over the roots, so that a bounded history
+    # still edits the copies as well as their sources)
+    plans = []
     for u, rt in list(enumerate(g.roots)):
         if rt is None or not rt.get('mut') or rt['kind'] in ('seqin', 'seqout'):
             continue
@@ -1127,11 +1274,14 @@ def directed(rng, pool, which):
             muts = ['set %d n %d' % (u, g.u32()), 'set %d hash %s' % (u, hx(g.h32()))]
         else:
             muts = ['set %d nValue %d' % (u, g.value()), 'set %d scriptPubKey %s' % (u, hx(g.script()))]
-        for m in r.sample(muts, min(len(muts), r.choice((2, 4, len(muts))))):
-            g.emit(m)
+        plans.append(r.sample(muts, min(len(muts), r.choice((2, 4, len(muts))))))
+    while any(plans) and len(g.ops) < cap:
+        for pl in plans:
+            if pl and len(g.ops) < cap:
+                g.emit(pl.pop(0))
     for _ in range(r.randrange(4)):
         g.random_op()
-    return g.history()
+    return g
 
 
 TXA = dict(ver=1, lock=0, vin=[(H32[1], 0, b'\x51', 0xffffffff)], vout=[(5, b'\x76\xa9')], wit=[])
@@ -1150,7 +1300,7 @@ ALPHABET = [
     'newblk ' + s_hdr((2, H32[0], H32[0], 1, 2, 3)) + ' 0',
     'setref 1 0 0.0', 'appref 0.0 1.0.0', 'setref 1.0.0 0 0.0.0.0', 'newtxfrom 0.0 0.1 3 2 -',
     'newtxd 1 0 ' + '|'.join(s_txin(i) for i in TXA['vin']) + ' ' + '|'.join(s_txout(o) for o in TXA['vout']),
-    'wlapp 0.2 1:07', 'newcin 0.0.0.0 51 5',
+    'wlapp 0.2 1:07', 'newcin 0.0.0.0 51 5', 'gethdr 1', 'newblkfrom 1 ',
 ]
 
 
@@ -1170,7 +1320,8 @@ class C09(Prop):
         'immutable_setref_rejected_ext', 'immutable_slots_stable_ext', 'immutable_value_stable_ext',
         'immutable_value_stable_run_ext', 'getHash_reflects_value_ext', 'ser_reflects_value_ext',
         'immutable_reach_reachable_ext', 'witness_list_edit_rejected_ext', 'witness_stack_edit_rejected_ext',
-        'refines_alias_spec_partial', 'rawSigHash_eq_sighash_model_partial', 'validTx_eq_fromTxOk', 'runX_base')]
+        'refines_alias_spec_partial', 'rawSigHash_eq_sighash_model_partial', 'validTx_eq_fromTxOk', 'runX_base',
+        'eq_true_ser_hash')]
     anchors = [('bitcoin/core/serialize.py', q) for q in (
         'Serializable.GetHash', 'Serializable.__eq__', 'Serializable.__hash__',
         'ImmutableSerializable.__setattr__', 'ImmutableSerializable.__delattr__', 'ImmutableSerializable.GetHash',
@@ -1193,11 +1344,19 @@ class C09(Prop):
                    'refinement of Model.HeapX to Spec.AliasSem is T2 only (refines_alias_spec UNPROVED; proved part: '
                    'refines_alias_spec_partial, histories without by-reference operations); on the extended catalogue '
                    '"a mutable copy is unaffected by later edits elsewhere" is copy_fresh_ext + T2',
-                   'the container-kind operations (mkseq / newctxfrom / setwitc) are T2 only']
-    rule = ('histories: 12 directed aliasing templates (incl. every container kind for vin/vout/witness: list, tuple, '
+                   'the container-kind operations (mkseq / newctxfrom / setwitc) are T2 only',
+                   'exception classes are modelled (pyExc outcomes, compared between Model.HeapX and Spec.AliasSem '
+                   'inside the driver) but NOT compared with the real code: the statement names none']
+    rule = ('histories: 13 directed aliasing templates (incl. every container kind for vin/vout/witness: list, tuple, '
             'subclasses, iterators)  with random values + random histories of 1..40 ops over the '
             'whole catalogue (boundary/mined field values incl. out-of-range ones); thorough: all histories of length '
-            '<= 3 over a 38-op alphabet; after every step every live object is observed; non-trivial = at least one '
+            '<= 3 over a 40-op alphabet; after every step every live object is observed (observer order alternates so '
+            'that == and hash() are taken before and after GetHash fills the cache); at the end of every history '
+            '== / != / eq-hash coherence for ALL ordered pairs of the first 40 live objects, across classes; '
+            'compared: ok-vs-raised (never the exception class), values, == / != , hash() equality classes (never the '
+            'hash value), mutability flag = every public attribute refuses assignment and deletion with any exception; '
+            'in-place edits of vtxinwit / stack: only that the object is unchanged afterwards; histories with '
+            'out-of-range literals are tagged out-of-domain; non-trivial = at least one '
             'object created and one mutation/copy/sighash executed; distinct by history text')
 
     def setup(self):
@@ -1220,20 +1379,24 @@ class C09(Prop):
         pool = list(self.pool)
         i = 0
         for rep in range(60 if big else 12):
-            for which in range(12):
+            for which in range(13):
                 i += 1
                 if i % nshards != shard:
                     continue
-                yield mk('c09.run', directed(rng, pool, which), tag='directed%d' % which)
+                g = directed(rng, pool, which, 100 if big else 36)
+                yield mk('c09.run', g.history(), tag='directed%d' % which, ood=g.ood)
         for rep in range(6000 if big else 480):
             i += 1
             if i % nshards != shard:
                 continue
             g = Gen(rng, pool)
-            n = rng.choice((1, 2, 3, 5, 8, 13, 20, 30, 40)) if rng.random() < 0.5 else rng.randrange(1, 41)
+            if big:
+                n = rng.choice((1, 2, 3, 5, 8, 13, 20, 30, 40)) if rng.random() < 0.5 else rng.randrange(1, 41)
+            else:
+                n = rng.choice((1, 2, 3, 5, 8, 13, 20, 30)) if rng.random() < 0.5 else rng.randrange(1, 31)
             for _ in range(n):
                 g.random_op()
-            yield mk('c09.run', g.history(), tag='random')
+            yield mk('c09.run', g.history(), tag='random', ood=g.ood)
         if big:
             for n in (1, 2, 3):
                 for ops in itertools.product(ALPHABET, repeat=n):
@@ -1250,6 +1413,11 @@ class C09(Prop):
         return '\t'.join(['c09.runc'] + list(case['args']))
 
     def agree(self, case, impl_out, model_out):
+        if '@@diff@' in model_out:
+            # the heap model and Spec.AliasSem disagree inside the driver: an infrastructure error (exit 2), never a
+            # statement about /repo
+            raise DriverError('C09: Model.HeapX and Spec.AliasSem disagree at step %s of %r'
+                              % (model_out.split('@@diff@')[1], case['args'][0][:400]))
         if VERBOSE:
             return impl_out == model_out
         return impl_out + '@@same' == model_out
@@ -1277,8 +1445,6 @@ class C09(Prop):
                 yield mk('c09.run', ';'.join(cand), tag=c.get('tag', ''))
 
     def signature(self, c, io, mo):
-        if not mo.endswith('@@same') and '@@diff@' in mo and io == mo.split('@@')[0]:
-            return 'C09-model-vs-aliasspec'      # heap model and Spec.AliasSem disagree (not a defect of /repo)
         # D23: the first diverging step comes after an immutable-class object was given a caller's list / mutable
         # outpoint AND that part was edited in place (or the edit itself was accepted)
         ios, mos = io.split(';'), mo.split('@@')[0].split(';')
@@ -1320,11 +1486,13 @@ def drop_step(ops, k):
                 w[2] = _renumber_target(w[2], k) if w[1] is not None else None
                 if w[2] is None:
                     return None
-            elif kind == 'newblk':
+            elif kind in ('newblk', 'newblkfrom'):
                 ns = [int(x) for x in w[2].split(',')] if w[2] else []
                 if k in ns:
                     return None
                 w[2] = ','.join(str(x - 1 if x > k else x) for x in ns)
+                if kind == 'newblkfrom':
+                    w[1] = _renumber_target(w[1], k)
             elif kind in ('newtx', 'newctx', 'newhdr', 'newtxd'):
                 pass
             elif kind == 'mkseq':
